@@ -71,7 +71,8 @@ RULE = ('Hypothesis-generated transfers: (block_size, max_requests) from '
         'EOF, hole layout, ranges per reply), operation get/put/copy/mget/'
         'recursive get or a file-object program; plus real-file transfers '
         'through asyncssh\'s own server (v3..v6, real holes) and the OpenSSH '
-        'sftp client. Non-trivial = >=2 replies outstanding and released out '
+        'sftp client; sparse layouts up to 300 data ranges (three batches of '
+        'the ranges extension). Non-trivial = >=2 replies outstanding and released out '
         'of order, or a short read that had to be continued, or an injected '
         'error status, or an early EOF, or a hole in the source; distinct = '
         'canonical JSON of the case.')
